@@ -6,7 +6,11 @@ from . import recorders
 
 UTC = datetime.timezone.utc
 # the last entry is the documented time(None): "go back to reading the system clock"
-TIMES = [datetime.datetime(2023, 3, 3, 3, 0, s, tzinfo=UTC) for s in (0, 10, 20, 30, 40, 5)] + [None]
+TIMES = [datetime.datetime(2023, 3, 3, 3, 0, s, tzinfo=UTC) for s in (0, 10, 20, 30, 40, 5)] + [
+    # aware datetimes in other zones (the instants 03:00:50 and 03:01:00 UTC): an instant is an instant
+    datetime.datetime(2023, 3, 3, 8, 30, 50, tzinfo=datetime.timezone(datetime.timedelta(hours=5, minutes=30))),
+    datetime.datetime(2023, 3, 2, 19, 1, 0, tzinfo=datetime.timezone(datetime.timedelta(hours=-8))),
+    None]
 OUTCOMES = ["addSuccess", "addFailure", "addError", "addSkip", "addExpectedFailure",
             "addUnexpectedSuccess"]
 LEAVES = ["py26", "py27", "ext", "twisted", "real"]
